@@ -373,6 +373,21 @@ def run_products(ctx):
             m.st(mkc(m, x, z, y), y >= z, x >= -5, x <= 5)
             m.do_math()
         t('dro ' + nm_, run_)
+    # products written while the decision was still static, the adaptation declared afterwards: refused at the latest when the
+    # model is formulated - in a worst-case constraint, in an expectation constraint and in an expectation objective
+    def late_adapt(kind):
+        m = dro.Model(2); x = m.dvar(2); z = m.rvar(2); y = m.dvar(2); t_ = m.dvar()
+        fs = m.ambiguity(); fs.suppset(z >= -1, z <= 1); fs.exptset(rso.E(z) == 0)
+        if kind == 'E-objective':
+            m.minsup(rso.E(y @ z + t_), fs)
+        else:
+            m.minsup(t_, fs)
+            m.st((y @ z <= t_) if kind == 'worst-case' else (rso.E(y @ z) <= t_) if kind == 'E-constraint' else (rso.E(rso.maxof(y @ z, 0)) <= t_))
+        m.st(y >= z, y <= z + 1, t_ >= -10)
+        y.adapt(z)
+        m.do_math()
+    for kind in ('worst-case', 'E-constraint', 'E-objective', 'E-maxof'):
+        t('dro adapt() declared after the product, ' + kind, lambda kind=kind: late_adapt(kind))
     t('dro norm(adaptive)', lambda: (lambda m, x, z, y: rso.norm(y))(*mk_dro()))
     t('dro sumsqr(static+adaptive)', lambda: (lambda m, x, z, y: rso.sumsqr(x + y))(*mk_dro()))
     t('dro square(2*static+adaptive)', lambda: (lambda m, x, z, y: rso.square(2 * x + y))(*mk_dro()))
